@@ -236,7 +236,7 @@ func init() {
 	realM := []string{"sqlittle incl. the unix file pager (fcntl locks, mmap) in agent processes", "real Linux kernel POSIX lock table on tmpfs, observed through /proc/locks", "SQLite 3.40.1 writers (python sqlite3), one OS process per connection"}
 	sim.Register(&sim.Prop{
 		ID: "C06", Engine: "E-WORLD-MP", Level: "exploration", Fn: runC06, NewEnv: NewMEnv,
-		Runs: map[string]int{"quick": 2400, "thorough": 80000},
+		Runs: map[string]int{"quick": 2400, "thorough": 24000},
 		Rule: "per run: one database (page size, journal mode, writer cache size drawn), 1-3 sqlittle handles (A1, A2 in agent process A or - half of the runs - in separate processes, B1 in process B) and 2 SQLite writers in their own processes; a seeded schedule of 20-60 steps picks one enabled action at a time: open / start an operation (8 kinds; exit path drawn from complete, early stop at row k, injected read error at read k, callback panic at row k) / resume to the next yield (pager event, callback, lock event or return) / close, and writer statements (BEGIN [IMMEDIATE|EXCLUSIVE], INSERT/UPDATE/DELETE incl. cache-spilling updates, COMMIT, ROLLBACK); after EVERY step the kernel's lock table is read and I1 (SHARED held while inside), I2 (nothing held after return), I4 (no COMMIT succeeds meanwhile) are evaluated; at every return I3 (all page reads and callbacks between lock-ok and unlock), I5 (rows = version committed at the lock) and the writer-state oracle; finally all reads are drained and a writer must commit; evaluations = operations returned; non-trivial = a lock was observed in the kernel table while a handle was parked after reading pages; states = (W1 state, W2 state, handles)",
 		Real: realM, Stub: []string{"none: tracing pager only observes and parks"},
 		Assumptions: []string{"lock-step: exactly one actor moves at a time, so every interleaving of the modelled yield points is reachable but truly simultaneous system calls are not", "a lost lock is attributed to the known same-process finding only by counterfactual replay of the same schedule with every handle in its own process"},
@@ -262,7 +262,7 @@ func init() {
 	})
 	sim.Register(&sim.Prop{
 		ID: "C07", Engine: "E-WORLD-MP", Level: "exploration", Fn: runC07, NewEnv: NewMEnv,
-		Runs: map[string]int{"quick": 432 + 2000, "thorough": 432 + 60000},
+		Runs: map[string]int{"quick": 432 + 2000, "thorough": 432 + 16000},
 		Rule: "runs 0..431 are the COMPLETE cross product writer state {UNLOCKED, SHARED, RESERVED-clean, RESERVED-dirty+journal, RESERVED-dirty with synchronous=OFF (complete journal header on disk while the writer lives), PENDING, EXCLUSIVE-spilled, EXCLUSIVE-begin} x journal mode {DELETE, TRUNCATE, PERSIST} x read operation (9) x handle age {fresh, long-lived with warm caches}, each with a real SQLite connection parked in the state and the state confirmed in the kernel's lock table; the remaining runs are seeded multi-process schedules as for C06 (without same-process siblings) in which every read is judged at its lock event: another process holding PENDING or EXCLUSIVE => error and no callback, otherwise nil error and exactly the rows of the version committed at that moment (uncommitted rows are distinguishable by content); evaluations = operations judged; distinct = distinct event logs",
 		Real: realM, Stub: []string{"none"},
 		Assumptions: []string{"ground truth of the writer's lock state is the kernel table, not the harness's belief", "the puppet-writer tier (parked inside a commit at every syscall boundary) is covered by C09's engine, not here"},
